@@ -107,10 +107,44 @@ let rec parse_op ?nest r : state -> state =
              out_count (List.length l); List.iter (fun (x, y) -> out_f x; out_f y) l; s')
   | o -> failwith ("unknown_op_" ^ o)
 
+(* seq lines (one generator, pure user functions): the history is the extracted [run_calls] itself *)
+let parse_call r =
+  match word r with
+  | "uniform" -> let a = num r in let b = num r in CUniform (a, b)
+  | "gauss" -> let a = num r in let b = num r in CGauss (a, b)
+  | "poisson" -> CPoisson (num r)
+  | "poissonv" -> CPoissonV (list r)
+  | "invt" -> let a = num r in let b = num r in let e = parse_fexpr r in CInvT (fun1 e, a, b)
+  | "rej" -> let a = num r in let b = num r in let ym = num r in let e = parse_fexpr r in CRej (fun1 e, a, b, ym)
+  | "rej2" -> let a = num r in let b = num r in let c = num r in let d = num r in let zm = num r in
+      let e = parse_fexpr r in CRej2 (fun2 e, a, b, c, d, zm)
+  | "metro" -> let sigma = num r in let sample = zint r in let thin = zint r in let burn = zint r in
+      let dom = list r in let e = parse_fexpr r in CMetro (fun1 e, sigma, sample, thin, burn, dom)
+  | "metro2" -> let s1 = num r in let s2 = num r in let sample = zint r in let thin = zint r in let burn = zint r in
+      let dom = list r in let e = parse_fexpr r in CMetro2 (fun2 e, s1, s2, sample, thin, burn, dom)
+  | o -> failwith ("unknown_op_" ^ o)
+let put_answer = function
+  | AReal x -> put_f x
+  | ACount k -> put_i (int_of_z k)
+  | ACounts ks -> put_i (List.length ks); List.iter (fun k -> put_i (int_of_z k)) ks
+  | APoint (x, y) -> put_f x; put_f y
+  | AReals l -> put_i (List.length l); List.iter put_f l
+  | APoints l -> put_i (List.length l); List.iter (fun (x, y) -> put_f x; put_f y) l
+
 let handler r =
   match word r with
-  | ("seq" | "seqn") as kind ->
-      let two = (kind = "seqn") in
+  | "seq" ->
+      let _seed = word r in
+      let ns = integer r in
+      for _ = 1 to ns do ignore (word r) done;
+      let us = list r in
+      let k = integer r in
+      let cs = List.init k (fun _ -> parse_call r) in
+      (match run_calls fops cs us with
+       | Ok (answers, rest) -> List.iter put_answer answers; put_i (List.length us - List.length rest); put_i 1
+       | Exit -> put_w "EXIT" | OOB -> put_w "OOB" | Fuel -> put_w "FUEL")
+  | ("seqn" | "seqh") as kind ->      (* seqh: a history compared with pristine processes; for the model (a function of the streams) it is seqn *)
+      let two = (kind <> "seq") in
       let _seed = word r in
       let ns = integer r in
       for _ = 1 to ns do ignore (word r) done;
